@@ -81,7 +81,7 @@ floats, and the remainder is labelled numerical evidence.
 /verif/known_findings.json         committed list of defects (open / fixed); never written at run time
 /verif/seeded/<name>/              seeded changes (patch.diff, demo.py, meta.json) used to test the checks
 /verif/tools/                      cq (compile one file, show the goal at the failing tactic), mk (incremental build),
-                                   mkmanifest.py, mkdesign.py, tryseed.sh
+                                   mkmanifest.py, mkdesign.py, tryseed.sh, allpass.sh (every check of a tier, exit codes logged)
 ```
 
 `./check Cxx` does, in order: regenerate `Gen/*.v` from the current source; incremental full build
@@ -137,7 +137,11 @@ to evaluate is bisected so that the offending case is isolated), classify, write
 (a) **Translator** (`harness/vf/gen.py`, fail-closed Python `ast`, never executes repository code):
 `_PAULI_OPERATOR_PRODUCTS`, the class attributes (`different_indices_commute`, ...) and `EQ_TOLERANCE`
 become `Gen/*.v`; `Thm/C01/GenTie.v` re-proves on every run that the source table equals the model
-table (whose soundness is a theorem).  A changed literal or an unknown AST shape breaks the
+table (whose soundness is a theorem).  The same translator turns pure integer *functions* (parameters,
+`if` / `return`, `+ - * %`, comparisons; Python integers become `Z`, whose `+ - * mod` are the same
+functions) into Gallina: `hubbard._right_neighbor` / `_bottom_neighbor` are regenerated as
+`Gen/HubbardNeighbors.v` and `Thm/C13/GenTie.v` re-proves, for ALL arguments, that they equal the model
+the bond theorems are about - a tie by translation with an unbounded obligation.  A changed literal or an unknown AST shape breaks the
 obligation; the check then looks for a failing input through the correspondence.
 
 (b) **Correspondence** for every hand model: same inputs through implementation and model, compared
@@ -162,7 +166,7 @@ itself breaks and no failing input is found, the line ends with `no-failing-inpu
 replay names the obligation.  `known_findings.json` lists defects by id with status `open` or `fixed`;
 a failure is downgraded to `KNOWN-FINDING:` (exit 0) only when the property module tags it with the
 id of an *open* finding through a decidable region predicate on the input (D6: `d6_region` in
-`props/c07.py`; D7: "a key only in the subtrahend" in `props/c08.py`).  `fixed` entries suppress
+`props/c07.py`; D7: "a key only in the subtrahend" in `props/c08.py`; D24: `d24` in `props/c13.py`).  `fixed` entries suppress
 nothing; their witnesses live in `corpus/` or in the generators.
 
 ### 2.6 Tiers and cost
@@ -183,16 +187,16 @@ the `Print Assumptions` summary.
 | C01 | Qubit: simplify sound + canonical, `*`,`+`,`-`,scalar,`**` homomorphisms; Fermion: same; source Pauli table = model table (re-proved each run) | Majorana merge / sort (index sets < 5, words <= 4) | aliasing programs over 5 classes vs the heap model; Majorana arithmetic vs model and JW denotation | - |
 | C02 | `isclose` = per-term spec, symmetric, order / other-term independent | Majorana commutation test, `is_normal_ordered` = fixed points of normal ordering | ==, !=, isclose, predicates, tensor equality | - |
 | C03 | CAR in the Fock semantics; checker soundness | normal-ordering model sound / ordered / idempotent for all words <= 4 (fermion 3 modes; boson, quad hbar 2 and 1/2) | all three algebras, InteractionOperator, chemist_ordered, reorder, canonicity pairs | - |
-| C04 | JW ladder / operator soundness; checker soundness | - | every fast path (InteractionOperator, DCH, one_body/two_body on all index tuples < 4, reverse JW) | dual-basis jellium helper (C13, tolerance in Coq) |
+| C04 | JW ladder / operator soundness; checker soundness | - | every fast path (InteractionOperator, DCH, one_body/two_body on all index tuples < 4, reverse JW); dual-basis jellium / plane-wave helpers on cubic, rectangular and sheared cells (tolerance 1e-9 inside Coq) | - |
 | C05 | - | encoding validity for every n_qubits <= 7 (BK and BK-tree); Fenwick set identities n_qubits <= 128 | index sets (n <= 48/128), images, operators, encoding property on outputs, SRL all (i,j) n <= 16/40, InteractionOperator path | - |
 | C06 | product = composition (basis of MatrixOf) | - | every matrix entry of sparse operators vs MatrixOf / Bargmann; matvec, parallel matvec (forced orders), diagonal, expectation, variance | quad matrices, eigenspectrum traces |
-| C07 | adjoint theorem; commutator-checker soundness | - | hermitian_conjugated, (anti)commutator, double commutator + hopping shortcut, all dual-basis pairs / triples, DC commutator, trotter_error predicates | - (bch_expand not covered) |
+| C07 | adjoint theorem; commutator-checker soundness | - | hermitian_conjugated, (anti)commutator, double commutator + hopping shortcut, all dual-basis pairs / triples, DC commutator, trotter_error predicates, bch_expand against an exact BCH series (nilpotent exp/log inside Coq) | - |
 | C08 | checker soundness | - | tensor arithmetic, all conversions and round trips, boson<->quad, rotate_basis = substitution, DOCI | rotation spectra |
 | C09 | GF(2) evaluation homomorphism, canonical form sound | - | BinaryPolynomial expressions, code validity on whole domains, binary_code_transform, JW/BK reproduction | - |
 | C10 | number operator eigenvalues | - | sector lists vs full enumeration, restricted matrices, determinant bases, expectation values | ground state at particle number (not covered) |
 | C11 | `C11_square/rect/gauss_layers_ok` (every size: adjacent, disjoint within a layer, depth) | covering (each required entry once) for n <= 32 (20) | reconstruction of every decomposition; emitted schedule = model | - |
 | C12 | product / adjoint theorems used | - | Bogoliubov constraints + diagonal form, majorana_form, canonical form, eigenvector residuals | subset-sum spectrum, Slater minors |
-| C13 | `C13_bonds_are_lattice_edges`, `C13_each_bond_once` (every lattice size, both boundary conditions) | same, re-checked for x,y <= 12 | all Hubbard-type generators vs edge-list specification, Hermiticity, conservation, general model, jellium consistency | jellium transcendental sums (consistency only) |
+| C13 | `C13_bonds_are_lattice_edges`, `C13_each_bond_once` (every lattice size, both boundary conditions); `C13_gen_right/bottom_neighbor_is_model` (source functions, translated on every run, equal the model for all arguments) | same, re-checked for x,y <= 12 | all Hubbard-type generators vs edge-list specification, Hermiticity, conservation, general model, jellium consistency | jellium transcendental sums (consistency only) |
 | C14 | `C14_swap_network_correct` (every n, both offsets: pairs once, adjacent, reversal) | same, n <= 40 by evaluation | swap network events; oracle tie | all circuit / gate unitaries |
 | C15 | Suzuki leaf times sum, leaf count | - | oracle tie | convergence order, exactness, final assignment, controlled variants |
 | C16 | checker soundness | - | reduce agrees on sector, tapering step, projection / freezing matrix elements, Pauli rotation | sector spectra, SCBK |
